@@ -195,6 +195,141 @@ fn exhaustive(opts: &Opts, rep: &mut Report) {
         (13 lists): exhaustive for that sub-space; non-trivial = ≥2 rules match".into());
 }
 
+// ---------------------------------------------------------------------------------------------
+// Large rule lists (tens of thousands of trie nodes)
+
+#[derive(Clone, Debug, Serialize, Deserialize, PartialEq, Eq, Hash)]
+pub struct BigRewriteCase {
+    /// number of rules; each creates `depth` fresh trie nodes unless it shares a first cell
+    pub n_rules: u32,
+    pub depth: u8,
+    /// every `share`-th rule reuses the first cell of an earlier rule (0 = never)
+    pub share: u16,
+    pub section: u8,
+    pub salt: u32,
+}
+
+impl BigRewriteCase {
+    pub fn rules(&self) -> Vec<Rule> {
+        let mut out = Vec::with_capacity(self.n_rules as usize);
+        for i in 0..self.n_rules {
+            let first = if self.share > 0 && i % u32::from(self.share) == u32::from(self.share) - 1 && i > 0 {
+                format!("k{}", (i.wrapping_mul(2654435761) ^ self.salt) % i)
+            } else {
+                format!("k{i}")
+            };
+            let mut pattern = vec![first];
+            for d in 1..self.depth {
+                pattern.push(match (i + u32::from(d) + self.salt) % 5 {
+                    0 => "*".to_string(),
+                    1 => "(v|w)".to_string(),
+                    2 => format!("m{}", i % 7),
+                    _ => "v".to_string(),
+                });
+            }
+            out.push(Rule { pattern, rewrite: vec![format!("R{i}"), "$2".into(), "$1".into(), "$9".into()] });
+        }
+        out
+    }
+}
+
+pub struct BigRewriter;
+
+impl Sub for BigRewriter {
+    type Case = BigRewriteCase;
+    fn name(&self) -> &'static str {
+        "rewriter_large"
+    }
+    fn max_shrink_iters(&self) -> u32 {
+        60
+    }
+    fn strategy(&self, _tier: Tier) -> BoxedStrategy<BigRewriteCase> {
+        (
+            prop_oneof![3 => 32_760u32..=32_775, 3 => 65_530u32..=65_545, 2 => 21_840u32..=21_850, 1 => 40_000u32..=70_000, 1 => 100u32..=2000],
+            2u8..=3,
+            prop_oneof![2 => Just(0u16), 1 => 2u16..=50],
+            0u8..3,
+            any::<u32>(),
+        )
+            .prop_map(|(n_rules, depth, share, section, salt)| BigRewriteCase { n_rules, depth, share, section, salt })
+            .boxed()
+    }
+    fn rule(&self) -> String {
+        "rule lists of 21840..21850, 32760..32775, 65530..65545 or 40000..70000 rules (2 or 3 pattern cells each, i.e. 2^16 and 2^17 trie nodes are crossed; distinct first cells, optionally every k-th rule re-using the first cell of an \
+         earlier rule; '*', alternatives and literals in the later cells) in one section; 600 feature lists aimed at the first, middle, boundary and last rules plus non-matching ones; oracle: linear first-match scan in file order; \
+         non-trivial = more than 65536 trie nodes; distinct = hash(case)".into()
+    }
+    fn check(&self, case: &BigRewriteCase, ctx: &mut Ctx) -> Result<(), String> {
+        let rules_ = case.rules();
+        let mut def = RewriteDef::default();
+        let decoy = vec![Rule { pattern: vec!["*".into()], rewrite: vec!["DECOY".into()] }];
+        def.unigram = decoy.clone();
+        def.left = decoy.clone();
+        def.right = decoy;
+        match case.section {
+            0 => def.unigram = rules_.clone(),
+            1 => def.left = rules_.clone(),
+            _ => def.right = rules_.clone(),
+        }
+        let text = def.render();
+        // probes: rule indices around interesting places, with matching and non-matching tails
+        let n = case.n_rules;
+        let mut idx: Vec<u32> = vec![0, 1, n / 2, n - 1, n.saturating_sub(2)];
+        for b in [21_845u32, 32_767, 32_768, 43_690, 65_535, 65_536] {
+            for d in 0..6u32 {
+                idx.push((b + d).saturating_sub(3).min(n - 1));
+            }
+        }
+        let mut st = u64::from(case.salt) | 1;
+        let mut next = || {
+            st = st.wrapping_mul(6364136223846793005).wrapping_add(1442695040888963407);
+            (st >> 33) as u32
+        };
+        while idx.len() < 200 {
+            idx.push(next() % n);
+        }
+        let mut probes: Vec<Vec<String>> = vec![];
+        for &i in &idx {
+            for tail in [vec!["v", "v"], vec!["w", "m3"], vec!["zz"]] {
+                let mut f = vec![format!("k{i}")];
+                f.extend(tail.iter().map(|s| s.to_string()));
+                probes.push(f);
+            }
+        }
+        probes.push(vec!["nomatch".into(), "v".into()]);
+        probes.push(vec![]);
+        let got = guard(|| hooks::rewrite_many(text.as_bytes(), case.section, &probes))
+            .map_err(|p| format!("rewrite with {} rules: {p}", rules_.len()))?
+            .map_err(|e| format!("rewrite.def with {} rules rejected: {e}", rules_.len()))?;
+        // reference: rules indexed by first cell (the linear scan restricted to the rules that can match the first cell)
+        let mut by_first: std::collections::HashMap<&str, Vec<usize>> = std::collections::HashMap::new();
+        for (j, r) in rules_.iter().enumerate() {
+            by_first.entry(r.pattern[0].as_str()).or_default().push(j);
+        }
+        for (f, g) in probes.iter().zip(&got) {
+            ctx.eval();
+            let cands: Vec<(Vec<String>, Vec<String>)> = f
+                .first()
+                .and_then(|k| by_first.get(k.as_str()))
+                .map(|v| v.iter().map(|&j| (rules_[j].pattern.clone(), rules_[j].rewrite.clone())).collect())
+                .unwrap_or_default();
+            let want = ref_rewrite(&cands, f);
+            if *g != want {
+                return Err(format!("{} rules (depth {}, share {}): features {f:?} rewritten to {g:?}, the first matching rule in file order gives {want:?}", rules_.len(), case.depth, case.share));
+            }
+        }
+        let nodes = u64::from(n) * u64::from(case.depth);
+        ctx.label_if(nodes > 65_536, "more_than_65536_trie_nodes");
+        ctx.label_if(nodes > 131_072, "more_than_131072_trie_nodes");
+        ctx.label_if(case.share > 0, "shared_first_cells");
+        if nodes > 65_536 {
+            ctx.nontrivial(case);
+        }
+        ctx.sample(|| serde_json::json!({"case": case, "first_rules": rules_.iter().take(3).map(|r| format!("{} -> {}", r.pattern.join(","), r.rewrite.join(","))).collect::<Vec<_>>(), "probes": probes.len()}));
+        Ok(())
+    }
+}
+
 pub fn run_c17(opts: &Opts) -> Report {
     let mut rep = Report::new("C17", "exploration");
     rep.assumptions = vec![
@@ -205,6 +340,8 @@ pub fn run_c17(opts: &Opts) -> Report {
     crate::props::committed_replays(&a, opts, &mut rep);
     run_sub(&a, opts, opts.tier.pick(40_000, 600_000), &mut rep);
     exhaustive(opts, &mut rep);
+    crate::props::committed_replays(&BigRewriter, opts, &mut rep);
+    run_sub(&BigRewriter, opts, opts.tier.pick(48, 800), &mut rep);
     rep
 }
 
@@ -491,7 +628,7 @@ pub fn run_c18(opts: &Opts) -> Report {
 
 pub fn replay(id: &str, path: &Path) -> Option<i32> {
     if id == "C17" {
-        crate::props::try_strict(&Rewriter, "C17", path)
+        crate::props::try_strict(&Rewriter, "C17", path).or_else(|| crate::props::try_strict(&BigRewriter, "C17", path))
     } else {
         crate::props::try_strict(&Templates, "C18", path).or_else(|| crate::props::try_strict(&Classes, "C18", path))
     }
